@@ -63,8 +63,14 @@ func (v *Verifier) newUnit(fn *ssa.Function, opts UnitOpts) *Unit {
 		u.MaxPaths = 4096
 	}
 	if opts.SafetyOnly && c != nil {
+		// the functional contract is verified elsewhere: keep requires, drop ensures, frames and
+		// user loop invariants (inferred candidates carry the safety proof)
 		cc := *c
 		cc.Ensures = nil
+		cc.Loops = nil
+		cc.ModSet = false
+		cc.Modifies = nil
+		cc.Pure = false
 		u.C = &cc
 	}
 	if len(opts.ExtraRequires) > 0 {
